@@ -144,7 +144,7 @@ class RDFLibAdapter(Adapter):
         language: str | None = None,
         datatype: str | None = None,
     ) -> rdflib.Literal:
-        return rdflib.Literal(lex, lang=language, datatype=datatype)
+        return rdflib.Literal(lex, lang=language, datatype=datatype, normalize=False)
 
     @override
     def namespace_declaration(self, name: str, iri: str) -> Prefix:
